@@ -12,7 +12,7 @@ miss=0; total=0
 for d in seeded/*/; do
   n=$(basename $d); id=${n%%-*}
   [ "$id" = "C02" ] && [ "$n" = "C02-c" ] && id=C01      # C02-c changes the score (the gradient stays its derivative): C01 is where it belongs
-  git -C $WT apply $d/patch.diff 2>/dev/null || { echo "$n PATCH-DOES-NOT-APPLY"; continue; }
+  git -C $WT apply /verif/$d/patch.diff 2>/dev/null || { echo "$n PATCH-DOES-NOT-APPLY"; continue; }
   VERIF_WORKERS=$W VERIF_REPO=$WT VERIF_OUT=/tmp/regress_out ./check $id --tier quick > /tmp/regress_$n.log 2>&1; rc=$?
   git -C $WT checkout -q -- .
   total=$((total+1)); [ $rc -ne 1 ] && miss=$((miss+1))
